@@ -153,7 +153,35 @@ func judgeDirStep(before, after []originium.VerifTable, low uint64) (string, str
 	return "", ""
 }
 
+// runC09db runs a sequential database workload and keeps only the verdicts of the in-situ
+// compaction oracle: every real compaction (real watermark, real table contents) is judged.
+func runC09db(c core.Case) core.Result {
+	r := runSeq(c, "C09", false)
+	var keep []core.Violation
+	for _, v := range r.Violations {
+		if strings.Contains(v.Sig, "insitu-compaction") {
+			keep = append(keep, v)
+		}
+	}
+	r.Violations = keep
+	if len(keep) == 0 && r.Verdict == "violation" {
+		r.Verdict = "ok" // read mismatches are C01's business; here only compactions are judged
+	}
+	n := int64(0)
+	for k, v := range r.Obs {
+		if strings.HasPrefix(k, "compact.L") {
+			n += v
+		}
+	}
+	r.AddObs("insitu_compactions_judged", n)
+	r.NonTrivial = n > 0 && r.Obs["discard.low>0"] > 0 && r.Obs["discard.dropped"] > 0
+	return r
+}
+
 func runC09(c core.Case) core.Result {
+	if c.Kind == "db" {
+		return runC09db(c)
+	}
 	var res core.Result
 	r := rand.New(rand.NewSource(c.Seed))
 	base := core.WorkerScratch()
@@ -360,6 +388,16 @@ func genC09(tier string, seed int64) []core.Case {
 		}
 		cs = append(cs, c)
 	}
+	ndb := 12
+	if tier == "thorough" {
+		ndb = 300
+	}
+	for _, c := range genSeq(tier, seed+9, "C09", ndb, ndb) {
+		c.Kind = "db"
+		c.N["txns"] = min(c.N["txns"], 150)
+		delete(c.N, "big")
+		cs = append(cs, c)
+	}
 	return cs
 }
 
@@ -397,7 +435,7 @@ func c09SelfTest() error {
 func init() {
 	core.Register(&core.Check{
 		Prop: "C09", Level: "exploration",
-		Rule: "case = 2-12 generated tables (1-40 entries, several versions and tombstones per key, duplicates across tables, hostile/windowed/long/binary keys) in a standalone level manager, block size/L0 target/ratio drawn, then 1-5 steps of CompactL0 / CompactLN(n) / CheckAndCompact / further flush / watermark raise (0, 1, a version, version+1, max, beyond); after every compaction: directory dump before vs after (only versions shadowed at or below the watermark may vanish, nothing appears or changes, tables sorted) and every key x timestamp >= watermark looked up against the brute-force model of everything flushed; finally the same lookups on handles rebuilt by recovery; non-trivial = a compaction happened, >=1 version was legitimately dropped and >=1 tombstone survived; distinct by hash of layout+steps",
+		Rule: "case = 2-12 generated tables (1-40 entries, several versions and tombstones per key, duplicates across tables, hostile/windowed/long/binary keys) in a standalone level manager, block size/L0 target/ratio drawn, then 1-5 steps of CompactL0 / CompactLN(n) / CheckAndCompact / further flush / watermark raise (0, 1, a version, version+1, max, beyond); after every compaction: directory dump before vs after (only versions shadowed at or below the watermark may vanish, nothing appears or changes, tables sorted) and every key x timestamp >= watermark looked up against the brute-force model of everything flushed; finally the same lookups on handles rebuilt by recovery; non-trivial = a compaction happened, >=1 version was legitimately dropped and >=1 tombstone survived; db cases: a sequential database workload (as C01) in which every real compaction - real watermark, real tables - is judged in situ by the same input/output oracle through the compaction hook, non-trivial = compactions ran with a watermark > 0 and dropped versions; distinct by hash of layout+steps / case parameters",
 		Gen: genC09, Run: runC09, BatchSize: 10, GoMaxProcs: 1, Parallel: 8,
 		SelfTest:      c09SelfTest,
 		MinNonTrivial: map[string]int{"quick": 20, "thorough": 500},
